@@ -2,8 +2,10 @@
 import itertools
 import json
 import random
+import time
 
-from ..common import (Report, cbool, cobs, copt, cstr, decide, load_findings, run_case_shards, run_impl,
+from .. import c11_util as U
+from ..common import (Report, cbool, clist, cobs, copt, cstr, decide, load_findings, run_case_shards, run_impl,
                       standard_proof_part, write_replay)
 
 PROP = "C11"
@@ -66,11 +68,12 @@ def rand_case(rng, tok):
 
 def rand_comment(rng, file_mode):
     body = "".join(rng.choice(" ;()abcXYZ\t-?:") for _ in range(rng.randint(0, 8)))
-    if not file_mode:
+    if file_mode is False:
         # in string mode a lone CR does not end the comment; it may be part of the body
         if rng.random() < 0.2:
             body += "\r x"
-    ends = ["\n", "\r\n"] + (["\r"] if file_mode else [])
+    # file_mode "both": a text given in both modes has no lone CR inside or at the end of a comment
+    ends = ["\n", "\r\n"] + (["\r"] if file_mode is True else [])
     return ";" + body + rng.choice(ends)
 
 
@@ -178,6 +181,308 @@ def build_inputs(rng, tier):
     return inputs, n_exh
 
 
+# ---------------------------------------------------------------- call sequences on one path (round 3, seeded change C11_D)
+def render_items(rng, tree, file_mode, style):
+    """like render(), but keeps the pieces: ([(separator, token)], trailer)"""
+    items, prev_atom = [], False
+    for t in flatten(tree):
+        is_atom = t not in "()"
+        items.append((rand_sep(rng, file_mode, prev_atom and is_atom, style), rand_case(rng, t)))
+        prev_atom = is_atom
+    trailer = rand_sep(rng, file_mode, False, style)
+    if style == "comments" and rng.random() < 0.3:
+        trailer += "; trailing (comment"
+    return items, trailer
+
+
+def items_text(items, trailer):
+    return "".join(s + t for s, t in items) + trailer
+
+
+def same_length_name(rng, tok):
+    """another atom of the same length whose lower-case form differs"""
+    chars = list(tok)
+    idxs = [i for i, c in enumerate(chars) if c.isalnum()]
+    i = rng.choice(idxs)
+    pool = "abcdefghijklmnopqrstuvwxyzABCDEFGHIJKLMNOPQRSTUVWXYZ" if chars[i].isalpha() else "0123456789"
+    chars[i] = rng.choice([c for c in pool if c.lower() != chars[i].lower()])
+    return "".join(chars)
+
+
+def same_length_variant(rng, items, trailer):
+    """a text of exactly the same length as the rendering (items, trailer) but different content.
+    returns (kind, text, expect) — expect None: judged by the strict reader alone."""
+    toks = [t for _, t in items]
+    atoms_at = [i for i, t in enumerate(toks) if t not in "()"]
+    parens_at = [i for i, t in enumerate(toks) if t in "()"]
+    kinds = ["rename", "rename", "case", "blank-tab", "move-paren", "move-paren", "paren-to-atom", "blank-to-semicolon"]
+    for _ in range(20):
+        kind = rng.choice(kinds)
+        if kind == "rename" and atoms_at:
+            new = list(items)
+            for i in rng.sample(atoms_at, min(len(atoms_at), rng.randint(1, 3))):
+                new[i] = (new[i][0], same_length_name(rng, new[i][1]))
+            return kind, items_text(new, trailer), {"ok": " ".join(t.lower() for _, t in new)}
+        if kind == "case" and any(c.isalpha() for t in toks for c in t):
+            new = [(s, t.swapcase()) for s, t in items]
+            return kind, items_text(new, trailer), {"ok": " ".join(t.lower() for t in toks)}
+        if kind == "blank-tab" and any(c in " \t" for s, _ in items for c in s):
+            tr = str.maketrans(" \t", "\t ")
+            new = [(s.translate(tr), t) for s, t in items]
+            return kind, items_text(new, trailer.translate(tr)), {"ok": " ".join(t.lower() for t in toks)}
+        if kind == "move-paren" and len(toks) >= 2:
+            cand = [i for i in range(len(toks) - 1) if (toks[i] in "()") != (toks[i + 1] in "()") or
+                    (toks[i] in "()" and toks[i + 1] in "()" and toks[i] != toks[i + 1])]
+            if cand:
+                i = rng.choice(cand)
+                new = list(items)
+                new[i], new[i + 1] = (items[i][0], items[i + 1][1]), (items[i + 1][0], items[i][1])
+                return kind, items_text(new, trailer), None
+        if kind == "paren-to-atom" and parens_at:
+            i = rng.choice(parens_at)
+            new = list(items)
+            new[i] = (items[i][0], "x")
+            return kind, items_text(new, trailer), None
+        if kind == "blank-to-semicolon":
+            text = items_text(items, trailer)
+            pos = [i for i, c in enumerate(text) if c == " "]
+            if pos:
+                i = rng.choice(pos)
+                return kind, text[:i] + ";" + text[i + 1:], None
+    return None
+
+
+SEQ_SHAPES = ["overwrite", "overwrite", "overwrite-chain", "two-paths", "string-after-file", "length-change", "reread"]
+
+
+def build_sequences(rng, tier):
+    """call sequences inside ONE process: texts put one after the other at the same path (same length, different
+    content), the same content at two paths, string input after file input, re-reads without a write.  Every step
+    is one case: the model and the strict reader get the text that is at the path at that moment."""
+    seqs = []
+    n = 70 if tier == "quick" else 700
+    while len(seqs) < n:
+        shape = rng.choice(SEQ_SHAPES)
+        fm = True if shape != "string-after-file" else "both"
+        t = rand_tree(rng, rng.randint(1, 4), ATOMS)
+        if isinstance(t, str) or not (3 <= len(flatten(t)) <= 50):
+            continue
+        style = rng.choice(["plain", "ws", "comments"])
+        items, trailer = render_items(rng, t, fm, style)
+        a_text, a_exp = items_text(items, trailer), {"ok": show(lower_tree(t))}
+        vs = []
+        for _ in range(3):
+            v = same_length_variant(rng, items, trailer)
+            if v is None or v[1] == a_text or len(v[1]) != len(a_text):
+                break
+            vs.append(v)
+        if len(vs) < 3:
+            continue
+        how = rng.choice(["overwrite", "overwrite", "replace", "recreate"])
+
+        def F(path, text, exp, write=True, note=""):
+            return dict(file=True, path=path, text=text, expect=exp, write=write, how=how, note=note)
+
+        def S(text, exp, note=""):
+            return dict(file=False, path=None, text=text, expect=exp, write=False, how=None, note=note)
+        (k1, b1, e1), (k2, b2, e2), (k3, b3, e3) = vs
+        if shape == "overwrite":
+            steps = [F("p0.pddl", a_text, a_exp, note="first"), F("p0.pddl", b1, e1, note="same-length:" + k1)]
+        elif shape == "overwrite-chain":
+            steps = [F("p0.pddl", a_text, a_exp, note="first"), F("p0.pddl", b1, e1, note="same-length:" + k1),
+                     F("p0.pddl", b2, e2, note="same-length:" + k2), F("p0.pddl", a_text, a_exp, note="back to the first text"),
+                     F("p0.pddl", b3, e3, note="same-length:" + k3)]
+        elif shape == "two-paths":
+            steps = [F("p0.pddl", a_text, a_exp, note="first"), F("p1.pddl", a_text, a_exp, note="same content, other path"),
+                     F("p1.pddl", b1, e1, note="same-length:" + k1), F("p0.pddl", a_text, a_exp, write=False, note="re-read, unchanged"),
+                     F("p0.pddl", b2, e2, note="same-length:" + k2), F("p1.pddl", b1, e1, write=False, note="re-read, unchanged")]
+        elif shape == "string-after-file":
+            steps = [F("p0.pddl", a_text, a_exp, note="first"), S(b1, e1, note="string, same-length:" + k1),
+                     F("p0.pddl", b1, e1, note="same-length:" + k1), S(a_text, a_exp, note="string, the first text"),
+                     F("p0.pddl", b2, e2, note="same-length:" + k2)]
+        elif shape == "length-change":
+            t2 = rand_tree(rng, rng.randint(1, 3), ATOMS)
+            c_text = render(rng, t2, fm, style)
+            if len(c_text) == len(a_text):
+                c_text += " "
+            steps = [F("p0.pddl", a_text, a_exp, note="first"), F("p0.pddl", c_text, {"ok": show(lower_tree(t2))}, note="other length"),
+                     F("p0.pddl", b1, e1, note="length of the first text again:" + k1), F("p0.pddl", b2, e2, note="same-length:" + k2)]
+        else:
+            steps = [F("p0.pddl", a_text, a_exp, note="first"), F("p0.pddl", a_text, a_exp, write=False, note="re-read, unchanged"),
+                     F("p0.pddl", b1, e1, note="same-length:" + k1), F("p0.pddl", b1, e1, write=False, note="re-read, unchanged")]
+        seqs.append({"shape": shape, "how": how, "steps": steps})
+    return seqs
+
+
+# ---------------------------------------------------------------- LARGE inputs (round 3, seeded change C11_C)
+BIG_BUFS = [4096, 8192, 65536, 131072]
+BIG_CLASSES = ["inside-token", "inside-comment", "after-newline", "between-tokens", "inside-crlf"]
+
+
+def rand_long_atom(rng):
+    n = rng.randint(6, 28)
+    return rng.choice("abcdXYZ?:") + "".join(rng.choice("abcdefXYZ0123456789-_") for _ in range(n - 1))
+
+
+def big_sep(rng, nonempty, style, nl):
+    """style 'oneline': blanks and tabs only; 'lines': any whitespace and line ends; 'comments': also ';' comments
+    (bodies up to 40 characters, never a lone CR: the same text is given in file and in string mode)"""
+    parts = []
+    for _ in range(rng.randint(1 if nonempty else 0, 3)):
+        r = rng.random()
+        if style == "comments" and r < 0.3:
+            parts.append(";" + "".join(rng.choice(" ;()abcXYZ\t-?:") for _ in range(rng.randint(0, 40))) + nl)
+        elif style != "oneline" and r < 0.5:
+            parts.append(nl)
+        elif style == "oneline":
+            parts.append(rng.choice(" \t"))
+        else:
+            parts.append(chr(rng.choice([9, 11, 12, 28, 29, 30, 31, 32, 32, 32])))
+    return "".join(parts)
+
+
+def big_render(rng, toks, style, nl, first_nonempty):
+    out, prev_atom = [], False
+    for j, t in enumerate(toks):
+        is_atom = t not in "()"
+        out.append(big_sep(rng, (prev_atom and is_atom) or (j == 0 and first_nonempty), style, nl))
+        out.append(rand_case(rng, t))
+        prev_atom = is_atom
+    return "".join(out)
+
+
+def translated(text):
+    """what a text-mode read delivers (universal newlines)"""
+    return text.replace("\r\n", "\n").replace("\r", "\n")
+
+
+def build_big_case(rng, target_len, buf, target_class, variant):
+    """text = shift + prefix + blocks repeated + suffix, whose token stream is the flattening of one tree (the
+    generator's expectation); the shift is chosen so that offset `buf` falls into `target_class` — offsets counted
+    in bytes of the file ('raw') or in characters after newline translation ('translated': what a text-mode
+    read(n) counts); target_len is a lower bound of the TRANSLATED length."""
+    atoms = ATOMS + [rand_long_atom(rng) for _ in range(6)]
+    style = "comments" if target_class == "inside-comment" else rng.choice(["oneline", "lines", "comments", "comments"])
+    nl = "\r\n" if target_class == "inside-crlf" else rng.choice(["\n", "\n", "\r\n"])
+    if target_class in ("after-newline", "inside-crlf") and style == "oneline":
+        style = "lines"
+    view = "raw" if (nl == "\n" or target_class == "inside-crlf" or rng.random() < 0.4) else "translated"
+    depth = rng.randint(1, 3)
+    ptoks, stoks = [], []
+    for _ in range(depth):
+        ptoks.append("(")
+        for _ in range(rng.randint(0, 2)):
+            ptoks += flatten(rand_tree(rng, 1, atoms))
+    for _ in range(depth):
+        for _ in range(rng.randint(0, 1)):
+            stoks += flatten(rand_tree(rng, 1, atoms))
+        stoks.append(")")
+    blocks = []
+    flat_objects = rng.random() < 0.15      # a long flat list of atoms (':objects a b c ...'): costs the model's reader O(n^2)
+    for _ in range(rng.randint(1, 3)):
+        while True:
+            btoks = []
+            for _ in range(rng.randint(1, 3)):
+                if flat_objects or rng.random() < 0.3:
+                    btoks.append(rng.choice(atoms))
+                else:
+                    sub = rand_tree(rng, 2, atoms)
+                    btoks += flatten(sub if isinstance(sub, list) else [sub, rng.choice(atoms)])
+            btext = big_render(rng, btoks, style, nl, True)
+            if len(translated(btext)) >= (24 if flat_objects else 60):
+                break
+        blocks.append((btoks, btext))
+    header = rng.choice(["", "; generated (problem" + nl, ";;" + nl + nl])
+    ptext = big_render(rng, ptoks, style, nl, False)
+    if variant == "unclosed":
+        stoks = stoks[:-1]
+    stext = big_render(rng, stoks, style, nl, True) + big_sep(rng, False, style, nl)
+    stoks_all = stoks
+    if variant == "trailing":
+        extra = rng.choice([["x"], ["(", "c", "d", ")"], [")"]])
+        stoks_all, stext = stoks + extra, stext + " " + " ".join(extra)
+    if variant == "open-comment":
+        stext += " ; trailing ( comment"
+    tl = lambda x: len(translated(x))
+    per = max(1, (target_len + 400 - tl(header) - tl(ptext) - tl(stext)) // len(blocks))
+    body = [(b[0], b[1], per // tl(b[1]) + 1) for b in blocks]
+    if variant == "extra-open":
+        bt, bx, r = body[0]
+        body = [(bt, bx, r // 2), ([], " ( ", 1), (bt, bx, r - r // 2)] + body[1:]
+    # choose the shift (leading blanks) that puts offset `buf` into the target class
+    base = header + ptext + "".join(bx * r for _, bx, r in body) + stext
+    seen = base if view == "raw" else translated(base)
+    labels = U.label_text(seen)
+    shift, hit = 0, False
+    for sft in range(0, 400):
+        o = buf - sft
+        if 0 < o < len(seen) and U.boundary_class(seen, labels, o) == target_class:
+            shift, hit = sft, True
+            break
+    if not hit:
+        shift = rng.randint(0, 63)
+    lead = " " * shift
+    segs = [[lead + header + ptext, 1]] + [[bx, r] for _, bx, r in body] + [[stext, 1]]
+    tsegs = [[[t.lower() for t in ptoks], 1]] + [[[t.lower() for t in bt], r] for bt, _, r in body]
+    tsegs.append([[t.lower() for t in stoks_all], 1])
+    if variant in ("ok", "open-comment"):
+        expect = {"digest": U.digest(U.expand_toks(tsegs))}
+    else:
+        expect = "raised"
+    return dict(segs=segs, expect_toks=tsegs if variant in ("ok", "open-comment") else None, expect=expect,
+                variant=variant, style=style, nl=repr(nl), target=[buf, target_class, view], target_hit=hit,
+                klass="D02" if variant == "trailing" else None)
+
+
+def build_big(rng, tier):
+    """a handful of LARGE texts per run: just above 64 KiB and 128 KiB (offsets k*65536 inside a token / a comment /
+    after a newline / inside CRLF), and cheaper ones above 8 KiB whose offsets k*4096, k*8192 do the same"""
+    plan = []
+    if tier == "quick":
+        big64, big128, small = 4, 2, 8
+    else:
+        big64, big128, small = 15, 8, 30
+    off = rng.randint(0, 4)
+    for i in range(big64):
+        # inside-token and inside-comment in every run; the other three classes rotate with the seed
+        k = BIG_CLASSES[i] if i < 2 else BIG_CLASSES[2 + (i + off) % 3]
+        plan.append((rng.randint(66000, 74000), 65536, k, "ok"))
+    for i in range(big128):
+        plan.append((rng.randint(131500, 140000), 131072 if i % 2 == 0 else 65536, BIG_CLASSES[(i + off) % 4 if i >= 2 else i], "ok"))
+    for i in range(small):
+        plan.append((rng.randint(8400, 21000), rng.choice([4096, 8192]), BIG_CLASSES[i % 5], "ok"))
+    for j, v in enumerate(["unclosed", "extra-open", "trailing", "open-comment"] * (1 if tier == "quick" else 3)):
+        large = (j == off % 4) if tier == "quick" else (rng.random() < 0.5)
+        plan.append((rng.randint(66000, 70000) if large else rng.randint(8400, 21000), 65536 if large else 8192,
+                     rng.choice(BIG_CLASSES[:4]), v))
+    if tier == "thorough":
+        plan.append((rng.randint(270000, 300000), 262144, "inside-token", "ok"))
+        plan.append((rng.randint(270000, 300000), 262144, "inside-comment", "ok"))
+    cases = []
+    for target_len, buf, klass, variant in plan:
+        if buf >= target_len:
+            buf = 4096
+        c = build_big_case(rng, target_len, buf, klass, variant)
+        for fm in (True, False):
+            cases.append(dict(c, file=fm))
+    return cases
+
+
+def big_lit(inp, res):
+    def dg(d):
+        return "(%d%%uint63, %d%%uint63, %d%%uint63)" % tuple(d)
+    observed = "(Returned %s)" % dg(res["ok"]) if "ok" in res else "Raised"
+    exp = inp["expect"]
+    if exp is None:
+        e = "None"
+    elif exp == "raised":
+        e = "(Some Raised)"
+    else:
+        e = "(Some (Returned %s))" % dg(exp["digest"])
+    segs = clist("{| s_block := %s; s_reps := %d |}" % (cstr(b), r) for b, r in inp["segs"])
+    return "{| b_file := %s; b_segs := %s; b_obs := %s; b_expect := %s |}" % (cbool(inp["file"]), segs, observed, e)
+
+
 def case_lit(inp, res):
     observed = res.get("ok") if "ok" in res else None
     exp = inp["expect"]
@@ -191,46 +496,142 @@ def case_lit(inp, res):
         cbool(inp["file"]), cstr(inp["text"]), cobs(observed), e)
 
 
+def seq_inputs(seqs):
+    """one ordinary case per step of each sequence (the replay carries the whole sequence)"""
+    out = []
+    for sid, sq in enumerate(seqs):
+        for k, st in enumerate(sq["steps"]):
+            out.append(dict(text=st["text"], file=st["file"], expect=st["expect"], kind="seq-" + sq["shape"], nontrivial=True,
+                            seq=sid, step=k, note=st["note"]))
+    return out
+
+
+def boundary_table(bigs):
+    """where the offsets k*B fall in the large texts of this run (B = plausible buffer sizes), on the raw text and
+    on the text after universal-newline translation (what a text-mode read counts)"""
+    tab = {}
+    seen = set()
+    for c in bigs:
+        key = json.dumps(c["segs"])
+        if key in seen:
+            continue
+        seen.add(key)
+        raw = U.expand_segs(c["segs"])
+        for view, text in (("raw", raw), ("translated", raw.replace("\r\n", "\n").replace("\r", "\n"))):
+            labels = U.label_text(text)
+            for b in BIG_BUFS:
+                row = tab.setdefault("%s/%d" % (view, b), {})
+                for o in range(b, len(text), b):
+                    k = U.boundary_class(text, labels, o)
+                    row[k] = row.get(k, 0) + 1
+    return tab
+
+
 def run(args):
     rep = Report(PROP, args.tier, args.seed)
     standard_proof_part(rep, PROP)
     rng = random.Random(args.seed * 7919 + 11)
+    n_exh, seqs, bigs = 0, [], []
     if args.replay:
-        data = json.load(open(args.replay))
-        inputs = [data["input"]["case"]]
-        n_exh = 0
+        data = json.load(open(args.replay))["input"]
+        inputs = []
+        if "sequence" in data:
+            seqs = [data["sequence"]]
+        elif "big" in data:
+            bigs = [data["big"]]
+        else:
+            inputs = [data["case"]]
     else:
         inputs, n_exh = build_inputs(rng, args.tier)
+        seqs = build_sequences(random.Random(args.seed * 7919 + 12), args.tier)
+        bigs = build_big(random.Random(args.seed * 7919 + 13), args.tier)
     # CPython facts encoded in the model
     facts = run_impl([{"op": "c11.facts"}], nproc=1)[0]
     facts_ok = (facts.get("isspace") == WS and facts.get("split") == WS and facts.get("lower_ok")
                 and facts.get("lower_changes") == list(range(65, 91)))
-    results = []
-    for hs in ([0] if args.tier == "quick" else [0]):
-        results = run_impl([{"op": "c11.parse", "text": i["text"], "file": i["file"]} for i in inputs], hashseed=hs)
+    timing, t0 = {}, time.time()
+    jobs = [{"op": "c11.parse", "text": i["text"], "file": i["file"]} for i in inputs]
+    jobs += [{"op": "c11.sequence", "steps": sq["steps"]} for sq in seqs]
+    raw = run_impl(jobs, hashseed=0)
+    results = list(raw[:len(inputs)])
+    s_inputs = seq_inputs(seqs)
+    for sq, r in zip(seqs, raw[len(inputs):]):
+        steps = r.get("steps") if isinstance(r, dict) else None
+        if steps is None or len(steps) != len(sq["steps"]):
+            steps = [r] * len(sq["steps"])       # the sequence op itself failed: every step counts as raised
+        results.extend(steps)
+    timing["impl_s"] = round(time.time() - t0, 1)
+    t0 = time.time()
     cases = []
-    for inp, res in zip(inputs, results):
-        cases.append({"lit": case_lit(inp, res),
-                      "input": {"case": inp, "implementation": res},
+    for inp, res in zip(inputs + s_inputs, results):
+        payload = {"case": inp, "implementation": res}
+        if "seq" in inp:
+            payload["sequence"] = seqs[inp["seq"]]
+            payload["failing_step"] = inp["step"]
+        cases.append({"lit": case_lit(inp, res), "input": payload,
                       "nontrivial": inp["nontrivial"], "witness_of": inp.get("witness_of")})
+    inputs = inputs + s_inputs
     verdicts, info = run_case_shards(PROP, "Corr.C11", [c["lit"] for c in cases], shard_size=150)
     summary = decide(rep, PROP, "Corr.C11", cases, verdicts, info, explain_expr="explain %s")
+    cov = rep.coverage
+    timing["coq_cases_s"] = round(time.time() - t0, 1)
+    t0 = time.time()
+    # LARGE inputs: one shard per (text, mode); the observable is a digest of the token stream
+    if bigs:
+        small_counts, small_distinct = dict(cov.get("verdict_counts", {})), cov.get("distinct_nontrivial", 0)
+        bres = run_impl([{"op": "c11.parse_big", "segs": b["segs"], "file": b["file"], "expect_toks": b.get("expect_toks")}
+                         for b in bigs], hashseed=0, nproc=min(8, len(bigs)))
+        bcases = []
+        for b, res in zip(bigs, bres):
+            slim = {k: v for k, v in b.items() if k != "expect_toks"}
+            slim["chars"] = sum(len(x) * r for x, r in b["segs"])
+            bcases.append({"lit": big_lit(b, res), "input": {"big": b, "summary": slim, "implementation": res},
+                           "nontrivial": True, "witness_of": None, "klass": b.get("klass")})
+        bver, binfo = run_case_shards(PROP + "/big", "Corr.C11", [c["lit"] for c in bcases], shard_size=1, run_fn="run_big",
+                                      header_extra="From Coq Require Import Uint63.\n")
+        decide(rep, PROP, "Corr.C11", bcases, bver, binfo, explain_expr="explain_big %s",
+               header_extra="From Coq Require Import Uint63.\n")
+        cov["big_verdict_counts"] = dict(cov.get("verdict_counts", {}))
+        merged = dict(small_counts)
+        for k, v in cov["big_verdict_counts"].items():
+            merged[k] = merged.get(k, 0) + v
+        cov["verdict_counts"] = merged
+        cov["distinct_nontrivial"] = small_distinct + cov.get("distinct_nontrivial", 0)
+        cov["big_inputs"] = {"cases": len(bigs), "chars": sorted({sum(len(x) * r for x, r in b["segs"]) for b in bigs}),
+                             "variants": {v: sum(1 for b in bigs if b["variant"] == v) for v in sorted({b["variant"] for b in bigs})},
+                             "targets_hit": sum(1 for b in bigs if b.get("target_hit")),
+                             "boundaries": boundary_table(bigs)}
+    timing["big_s"] = round(time.time() - t0, 1)
+    cov["timing_s"] = timing
     if not facts_ok:
         p = write_replay(PROP, "cpython_facts", {"kind": "correspondence", "why": "CPython whitespace/lower facts differ from the model", "facts": facts})
         rep.violation(p, False)
-    cov = rep.coverage
     kinds = {}
     for i in inputs:
         kinds[i["kind"]] = kinds.get(i["kind"], 0) + 1
     cov["input_distribution"] = kinds
     cov["modes"] = {"file": sum(1 for i in inputs if i["file"]), "string": sum(1 for i in inputs if not i["file"])}
     cov["outcomes"] = {"returned": sum(1 for r in results if "ok" in r), "raised": sum(1 for r in results if "ok" not in r)}
+    cov["sequences"] = {"count": len(seqs), "steps": len(s_inputs),
+                        "shapes": {sh: sum(1 for q in seqs if q["shape"] == sh) for sh in sorted({q["shape"] for q in seqs})},
+                        "how": {h: sum(1 for q in seqs if q["how"] == h) for h in sorted({q["how"] for q in seqs})},
+                        "same_length_kinds": {}}
+    for q in seqs:
+        for st in q["steps"]:
+            if "same-length:" in st["note"] or "again:" in st["note"]:
+                k = st["note"].split(":")[-1]
+                cov["sequences"]["same_length_kinds"][k] = cov["sequences"]["same_length_kinds"].get(k, 0) + 1
     cov["exhaustive_trees_enumerated"] = n_exh
     cov["exhaustive"] = False
     cov["rule"] = ("token trees enumerated exhaustively up to %d tokens over 3 atoms (sub-sampled at the largest sizes), random trees up to depth 5, "
                    "each rendered with plain / any-whitespace / whitespace+comment layouts and random case, in file or string mode; every single "
-                   "parenthesis deletion/insertion and trailing text; raw character soup.  Non-trivial: >=2 tokens or a non-plain layout; distinct by input hash."
-                   % (6 if args.tier == "quick" else 8))
+                   "parenthesis deletion/insertion and trailing text; raw character soup; call SEQUENCES in one process (a path overwritten with a "
+                   "different text of the same length: renamed atoms, case, blank<->tab, a moved parenthesis, parenthesis->atom, blank->';'; the same "
+                   "content at two paths; string after file; re-reads), each step judged on the text at the path at that moment; LARGE texts "
+                   "(8-20 KiB, >64 KiB, >128 KiB%s; a block repeated, shifted so that offsets k*4096/8192/65536/131072 fall inside a token, inside a "
+                   "comment, after a newline, inside CRLF) from file and from string, compared by token-stream digest.  "
+                   "Non-trivial: >=2 tokens or a non-plain layout; distinct by input hash."
+                   % (6 if args.tier == "quick" else 8, ", >256 KiB" if args.tier == "thorough" else ""))
     cov["samples"] = [c["input"]["case"] for c in cases[:3]] + [c["input"]["case"] for c in cases[-2:]]
     cov["explanation"] = "theorems C11_* (Props/C11.v) proved for all inputs on the model; model tied to /repo by the cases above"
     rep.assumptions = ["ASCII input only (code points < 128)", "CPython facts re-checked on this run: %s" % facts_ok]
